@@ -209,13 +209,19 @@ func (d *DefaultClientDispatcher) messagePump() {
 				continue
 			}
 			if d.pendingRequestState.HasPendingRequest() {
-				// Current request timed out. Removing request and triggering cancel callback
+				// Current request timed out. Removing request and triggering cancel callback, unless a response
+				// concluded it in the meantime: the queue is empty then, or its head is a request that was not sent yet.
 				el := d.requestQueue.Peek()
-				bundle, _ := el.(RequestBundle)
-				d.CompleteRequest(bundle.Call.UniqueId)
-				if d.onRequestCancel != nil {
-					d.onRequestCancel(bundle.Call.UniqueId, bundle.Call.Payload,
-						ocpp.NewError(GenericError, "Request timed out", bundle.Call.UniqueId))
+				bundle, ok := el.(RequestBundle)
+				if ok {
+					_, ok = d.pendingRequestState.GetPendingRequest(bundle.Call.UniqueId)
+				}
+				if ok {
+					d.CompleteRequest(bundle.Call.UniqueId)
+					if d.onRequestCancel != nil {
+						d.onRequestCancel(bundle.Call.UniqueId, bundle.Call.Payload,
+							ocpp.NewError(GenericError, "Request timed out", bundle.Call.UniqueId))
+					}
 				}
 			}
 			// No request is currently pending -> set timer to high number
